@@ -46,6 +46,15 @@ def run(project, chk):
     org = Origins(project, fi, cfg)
     G = guard_states(cfg)
 
+    # defaults: a bulk call without settings is the map of single calls without settings
+    chk.rule("B5", "make_readable_bulk's defaults for mode / very_readable equal ColorPair.make_readable's")
+    mfi = project.func(MR)
+    for pn in ("mode", "very_readable"):
+        a, b = fi.defaults().get(pn), mfi.defaults().get(pn)
+        ok5 = isinstance(a, ast.Constant) and isinstance(b, ast.Constant) and a.value == b.value and type(a.value) is type(b.value)
+        chk.check(ok5, "B5", fi.short, f"{pn}={norm_text(a) if a is not None else '?'}", project.loc(m, a if a is not None else fi.node), f"default {pn} is the same in the bulk and the single-pair API", how=f"{norm_text(a) if a is not None else None} == {norm_text(b) if b is not None else None}", nontrivial=False,
+                  message=f"bulk default {pn}={norm_text(a) if a is not None else None} differs from make_readable's {norm_text(b) if b is not None else None}: a plain bulk call is not the map of plain single calls")
+
     # the results accumulator = what the function returns
     rets = [n for n in cfg.nodes if n.kind == "return"]
     if len(rets) != 1 or not isinstance(rets[0].ast.value, ast.Name):
